@@ -134,6 +134,38 @@ def _edit_after_render(x, how):
     return t.get_html_string()
 
 
+_SCRATCH = []
+
+
+def _scratch_dir():
+    if not _SCRATCH:
+        import atexit
+        import shutil
+        import tempfile
+
+        _SCRATCH.append(tempfile.mkdtemp(prefix="hv-c02-"))
+        atexit.register(shutil.rmtree, _SCRATCH[0], True)
+    return _SCRATCH[0]
+
+
+def _saved_file(x, via):
+    """What save_html() actually writes (read back as UTF-8 without newline translation)."""
+    import os
+
+    f = os.path.join(_scratch_dir(), "page.html")
+    obj = div(x, ht.tags.em()) if via == "tag" else ht.TagList(span(), x) if via == "list" else ht.HTMLDocument(div("a"), x)
+    obj.save_html(f)
+    with open(f, encoding="utf-8", newline="") as fh:
+        return fh.read()
+
+
+def _json_roundtrip_head(x):
+    """Text in a dependency's head survives serialisation to JSON and recovery by HTMLTextDocument as the same inert text."""
+    dep = ht.HTMLDependency("d", "1", head=[x, ht.tags.title("t")])
+    ser = dep.serialize_to_script_json().get_html_string()
+    return ht.HTMLTextDocument("<head>@@</head><body>" + ser + "</body>", deps_replace_pattern="@@").render()["html"]
+
+
 def _doc_append(x):
     d = ht.HTMLDocument(div("a"))
     d.append(x, span("z"))
@@ -141,6 +173,10 @@ def _doc_append(x):
 
 
 PATHS = {
+    "saved_file_tag": lambda x: _saved_file(x, "tag"),
+    "saved_file_list": lambda x: _saved_file(x, "list"),
+    "saved_file_document": lambda x: _saved_file(x, "doc"),
+    "json_roundtrip_head_text": _json_roundtrip_head,
     "setitem_after_render": lambda x: _edit_after_render(x, "setitem"),
     "setitem_taglist_after_render": lambda x: _edit_after_render(x, "taglist"),
     "pop_insert_after_render": lambda x: _edit_after_render(x, "pop_insert"),
@@ -213,7 +249,7 @@ PATHS = {
 # paths whose operation takes a node or an iterable, not a bare number (item assignment stores what it is given: numbers are
 # converted by the child-adding operations - constructor, append, extend, insert, + - which is where the statement puts them)
 NOT_FOR_NUMBERS = ("taglist_add", "taglist_radd", "tagify_single", "taglist_iadd_str", "setitem_after_render", "setitem_taglist_after_render", "slice_assign_after_render")
-QUICK_BLOCK_PATHS = ["only_child_block", "middle_inline", "list_indent3", "tagify_list", "append", "between_blocks"]
+QUICK_BLOCK_PATHS = ["only_child_block", "middle_inline", "list_indent3", "tagify_list", "append", "between_blocks", "saved_file_tag", "json_roundtrip_head_text"]
 
 
 def _tagseq(s):
